@@ -251,6 +251,12 @@ func init() {
 					}
 				}
 			}
+			// the smallest shutdown timeout the configuration accepts (1 s) with a request that needs half of it
+			for i, mode := range []string{"once", "twice", "concurrent"} {
+				for j, inflight := range []string{"headers", "body"} {
+					cs = append(cs, c19Case{Strategy: allStrategies[(i+j+2)%5], Interval: 10, ProbeTO: 3, ShutdownTO: 1, StopAtMs: 1200 + 700*j, Inflight: inflight, ReqMs: 800, Mode: mode, Pool: i - 1})
+				}
+			}
 			// the same without active health checks
 			for i, mode := range []string{"once", "twice", "concurrent", "stop-only"} {
 				for j, inflight := range []string{"none", "headers", "body"} {
